@@ -29,11 +29,11 @@ def conditions(tier):
                              timeout=T, name='comment-block order[dump order %d]' % dp,
                              bounds='all 720 orders of 6 comment blocks (function, class, its SECTION, two standalone '
                                     'SECTIONs, a property) from 3 files; dump children in permutation %d' % dp))
-    for rot in ((0, 5, 11) if quick else range(16)):
+    for rot in ((0, 5, 11) if quick else range(17)):
         conds.append(ch.Cond('h_c16', 'decl_order', [('a', 'int'), ('b', 'int'), ('rev', 'bool')],
-                             pre=['0 <= a <= 15', '0 <= b <= 15'], fixed=dict(rot=rot), timeout=T,
+                             pre=['0 <= a <= 16', '0 <= b <= 16'], fixed=dict(rot=rot), timeout=T,
                              name='declaration order[rotation %d]' % rot,
-                             bounds='16 groups of declarations (typedefs and struct/union bodies of three compounds and a '
+                             bounds='17 groups of declarations (typedefs - one struct has two typedef names - and struct/union bodies of three compounds and a '
                                     'class in separate groups, functions, enum, constants, alias, callback) with any two '
                                     'groups swapped, rotated by %d and optionally reversed' % rot))
     conds.append(ch.Cond('h_c16', 'sibling_order',
@@ -42,6 +42,13 @@ def conditions(tier):
                          timeout=T, name='sibling order',
                          bounds='three toplevel nodes with names from {Alpha, Beta, Gamma, alpha} and kinds from {alias, '
                                 'record, enumeration, function}: aliases first, then by name'))
+    conds.append(ch.Cond('h_c16', 'cache_history', [('f1', 'int'), ('f2', 'int'), ('f3', 'int'), ('age', 'int')],
+                         pre=['0 <= f1 <= 2', '0 <= f2 <= 2', '0 <= f3 <= 2', '0 <= age <= 5'], timeout=T,
+                         name='cold vs warm cache',
+                         bounds='every history of three scans over three dependency files of the same name in different '
+                                'directories with different contents, all orders of their time stamps, one shared cache '
+                                'directory (real CacheStore, pickle and GIRParser on the real file system): each scan sees what '
+                                'a cold parse of its file gives'))
     return conds
 
 
@@ -76,8 +83,8 @@ def run(report, tier, seed, only=None):
         'the interpreter hash seed reaches the scanner only through the iteration order of sets (dicts keep insertion '
         'order): the name `set` is shadowed in the scanner modules by a set whose iteration order is a chosen '
         'permutation; set displays {a, b} and sets created inside library code are not covered',
-        'cache cold/warm equivalence is not examined here (the pickle round trip is outside reach; C18 covers cache '
-        'freshness)',
+        'cold/warm cache: histories of three scans over three same-named dependency files through the real CacheStore '
+        'and pickle on the real file system (C18 covers freshness under concurrency)',
         'C lexer replaced by declaration records carrying their own file/line, dump subprocess by a fake tree')
     conds = conditions(tier)
     if only:
